@@ -352,6 +352,32 @@ pub fn gen(out: &mut crate::gen::Out, rng: &mut Rng, thorough: bool) {
         }
         out.job(move || wasm_line(&content, &ops));
     }
+    // an option group set, CLEARED (empty image reference), and set again: what was configured before the clearing call
+    // (size, position, background) is still in force, as it is in the native builder
+    for k in 0..(if thorough { 200 } else { 24 }) {
+        let content = (*rng.pick(CONTENTS)).to_string();
+        let mut ops = Vec::new();
+        if k % 2 == 0 {
+            ops.push(WOp::ImageSize(crate::svgops::rand_dyadic(rng, 2, 12), crate::svgops::rand_dyadic(rng, 0, 3)));
+        }
+        if k % 3 != 0 {
+            ops.push(WOp::ImageBgShape(rng.below(3)));
+        }
+        if k % 4 < 2 {
+            ops.push(WOp::ImagePosition(vec![crate::svgops::rand_dyadic(rng, 4, 20), crate::svgops::rand_dyadic(rng, 4, 20)]));
+        }
+        if k % 5 == 0 {
+            ops.push(WOp::ImageBgColor((*rng.pick(COLOURS)).to_string()));
+        }
+        if k % 2 == 1 {
+            ops.push(WOp::Image("first.png".to_string()));
+        }
+        ops.push(WOp::Image(String::new()));
+        if k % 7 != 0 {
+            ops.push(WOp::Image("logo.png".to_string()));
+        }
+        out.job(move || wasm_line(&content, &ops));
+    }
     // numeric options as JavaScript really passes them: NaN for a missing argument, Infinity, negative zero
     let odd = [f64::NAN, f64::INFINITY, f64::NEG_INFINITY, -0.0, 0.0];
     for k in 0..(if thorough { 120 } else { 20 }) {
